@@ -36,6 +36,8 @@ func main() {
 		os.Exit(cmdCheck(os.Args[2:]))
 	case "replay":
 		os.Exit(cmdReplay(os.Args[2:]))
+	case "path":
+		os.Exit(cmdPath(os.Args[2:]))
 	case "warm":
 		t0 := time.Now()
 		if _, err := NewEngine(verifDir(), []string{"./..."}); err != nil {
@@ -570,3 +572,61 @@ func writeEvidence(vd, id string, prop *Property, tier string, seed int, e *Engi
 	os.MkdirAll(filepath.Join(vd, "evidence"), 0o755)
 	os.WriteFile(filepath.Join(vd, "evidence", id+".json"), b, 0o644)
 }
+
+
+// cmdPath: debugging aid — run one path of one instance under a decision
+// prefix given as "kind:pick/n kind:pick/n ..." and dump what happened.
+func cmdPath(argv []string) int {
+	if len(argv) < 3 {
+		fmt.Fprintln(os.Stderr, "usage: symgo path <property> <instance name> <decisions>")
+		return 2
+	}
+	prop, ok := props[argv[0]]
+	if !ok {
+		return 2
+	}
+	var prefix []Decision
+	for _, f := range strings.Fields(argv[2]) {
+		var d Decision
+		parts := strings.Split(f, ":")
+		d.Kind = parts[0]
+		if i := strings.Index(parts[1], "="); i >= 0 {
+			fmt.Sscanf(parts[1][i+1:], "%d", &d.Val)
+			parts[1] = parts[1][:i]
+		}
+		fmt.Sscanf(parts[1], "%d/%d", &d.Pick, &d.N)
+		prefix = append(prefix, d)
+	}
+	eng, err := NewEngine(verifDir(), []string{"./..."})
+	if err != nil {
+		fmt.Fprintln(os.Stderr, err)
+		return 2
+	}
+	eng.timeoutMs = 60000
+	for _, tier := range []string{"quick", "thorough"} {
+		for _, in := range prop.Instances(tier) {
+			if in.Name() != argv[1] {
+				continue
+			}
+			sol, _ := NewSolver(eng.solverKind, eng.timeoutMs)
+			debugPath = true
+			res := eng.runPath(sol, in, prefix)
+			fmt.Printf("ended=%q decisions=%s\n", res.Ended, decisionsString(res.Decisions))
+			for _, s := range res.Inconclusive {
+				fmt.Println("inconclusive:", s)
+			}
+			for _, v := range res.Violations {
+				fmt.Println("violation:", v.Label)
+			}
+			for _, n := range res.Notes {
+				fmt.Println("note:", n)
+			}
+			fmt.Printf("new prefixes: %d\n", len(res.NewPrefixes))
+			return 0
+		}
+	}
+	fmt.Fprintln(os.Stderr, "instance not found")
+	return 2
+}
+
+var debugPath bool
